@@ -161,12 +161,21 @@ def split_call_case(c, vs):
 # ----------------------------------------------------------------------------
 # generic driver for complete enumerations (X-ENUM, X-SEQ) that do not use X-RUN
 
-def enum_check(prop, tier, cases, fn, level, rule, assumptions, propose_only=False, extra_cov=None, det_n=6, nworkers=None, nontrivial=None, sample_of=None, do_warmup=True, exhaustive=True, mc_keys=None):
+def enum_check(prop, tier, cases, fn, level, rule, assumptions, propose_only=False, extra_cov=None, det_n=6, nworkers=None, nontrivial=None, sample_of=None, do_warmup=True, exhaustive=True, mc_keys=None, slow_phase=None):
     """cases: list of dicts with 'key' and 'family'; fn(case) -> outcome dict {key, family, symptom, detail, stats:{evaluations, ...}, sample}."""
     t0 = time.time()
     if do_warmup:
         warmup()
-    outs = runner.pmap(fn, cases, nworkers=nworkers)
+    if slow_phase:
+        # cases that depend on a helper process starting promptly (constexpr evaluation, 1 s limit inside the compiler) run first,
+        # on a few workers only, so that the machine is not saturated while they run
+        pred, nw = slow_phase
+        first = [c for c in cases if pred(c)]
+        rest = [c for c in cases if not pred(c)]
+        cases[:] = first + rest
+        outs = runner.pmap(fn, first, nworkers=nw) + runner.pmap(fn, rest, nworkers=nworkers)
+    else:
+        outs = runner.pmap(fn, cases, nworkers=nworkers)
     det = runner.determinism_check(fn, cases, outs, n=det_n) if det_n else []
     if det:
         print(f"HARNESS-ERROR property={prop}: non-deterministic observations on re-run of case(s) {[d[0] for d in det]}")
